@@ -12,8 +12,8 @@ EXPLANATION = (
     "that is an attribute of the connection, which SocketConnection.close resets; mode 'percall' stores nothing; the creator "
     "(or the class) is called exactly once per created instance and a creator result of the wrong type raises; the mode "
     "literals tested equal the ones the behavior decorator accepts; register() defaults the mode only if none is set or inherited. "
-    "Not decided: identity across real histories/schedules "
-    "(follows only under the interpreter's lock semantics)."
+    'Also decided: the instance tables are created per daemon / per connection, read and written under the same key, a fresh instance is stored before it is returned, close() drops session instances on every path, _getInstance runs exactly for registered classes, the creator is tested by identity with None. '
+    "Not decided: identity across real histories/schedules (follows only under the interpreter's lock semantics)."
 )
 
 GI = "Pyro5.server.Daemon._getInstance"
@@ -148,6 +148,18 @@ def run(ctx, R, tier):
                         ok = False
                         why = "the session branch stores the instance in `%s`, which is shared between connections" % unparse(t.value)
     R.check(ok, "C09-R3", "_getInstance|session-store-on-connection", "mode session stores only into the connection's table", f.loc(), why)
+    # the table is written under the key it is read with (the registered class): otherwise every lookup misses and the mode degrades to percall
+    for mode, prefix in (("single", single_table), ("session", conn + ".")):
+        rkeys = set()
+        for c in walk_no_nested(f.node):
+            if isinstance(c, ast.Call) and isinstance(c.func, ast.Attribute) and c.func.attr == "get" and unparse(c.func.value).startswith(prefix) and c.args:
+                rkeys.add(unparse(c.args[0]))
+            if isinstance(c, ast.Subscript) and isinstance(c.ctx, ast.Load) and unparse(c.value).startswith(prefix):
+                rkeys.add(unparse(c.slice))
+        wkeys = {unparse(t.slice) for st, t, k in stores_in(f.node) if isinstance(t, ast.Subscript) and unparse(t.value).startswith(prefix)}
+        R.check(bool(rkeys) and rkeys == wkeys and rkeys == {f.params[1]}, "C09-R3" if mode == "session" else "C09-R2", "_getInstance|%s-table-key-agreement" % mode,
+                "the %s table is read and written under the same key, the registered class" % mode, f.loc(),
+                "the %s table is read under %s but written under %s: lookups never find what was stored, so a new instance is created for every call" % (mode, sorted(rkeys), sorted(wkeys)))
     # a newly created single / session instance is remembered: from the creation call every normal path stores it into the mode's table before it is returned
     rets_all = [n for n in cfg.nodes if n.kind == "stmt" and isinstance(n.ast, ast.Return)]
     for mode, prefix in (("single", single_table), ("session", conn + ".")):
@@ -162,6 +174,14 @@ def run(ctx, R, tier):
     clears = [c for c, _ in ctx.cg.calls_of(cl) if unparse(c.func) == "self.pyroInstances.clear"]
     R.check(bool(resets) or bool(clears), "C09-R3", "SocketConnection.close|drops-session-instances", "closing a connection drops its session instances", cl.loc(),
             "SocketConnection.close no longer resets pyroInstances")
+    clcfg = ctx.cfg(cl)
+
+    def keep_open_(atom, pol):
+        return pol is True and unparse(atom) == "self.keep_open"
+    rnodes_ = [n for st in resets for n in clcfg.nodes_for(st)] + [n for c in clears for n in ctx.node_of(cl, c)]
+    okr = bool(rnodes_) and clcfg.all_paths_cross([clcfg.entry], lambda e: (e.src in rnodes_ and e.kind != "exc") or edge_has_fact(e, keep_open_), targets=[clcfg.exit])
+    R.check(okr, "C09-R3", "SocketConnection.close|drop-on-every-path", "every path through close() (also when shutting the socket down fails) drops the session instances", cl.loc(),
+            "the reset of pyroInstances can be skipped (it sits behind a call whose failure is suppressed): after a connection reset by the peer the session instances are kept")
     # ... and every server type really closes an ended connection, also when the disconnect hook raises (shared with C13-R1/R2)
     from ..report import Rules
     from . import c13
@@ -203,11 +223,31 @@ def run(ctx, R, tier):
             "C09-R5", "createInstance|one-call-each", "one creator(clazz) call and one clazz() call, none in a loop", ci.loc(),
             "%d creator calls / %d class calls" % (len(creator_calls), len(class_calls)))
 
+    def _set(atom, pol):
+        """+1: the creator is known to be set, -1: known to be None/absent, 0: no information (truthiness and identity-with-None tests both count)"""
+        if isinstance(atom, ast.Name) and atom.id == creator_p:
+            return 1 if pol is True else -1
+        if isinstance(atom, ast.Compare) and len(atom.ops) == 1 and isinstance(atom.left, ast.Name) and atom.left.id == creator_p \
+                and isinstance(atom.comparators[0], ast.Constant) and atom.comparators[0].value is None:
+            if isinstance(atom.ops[0], ast.IsNot):
+                return 1 if pol is True else -1
+            if isinstance(atom.ops[0], ast.Is):
+                return -1 if pol is True else 1
+        return 0
+
     def creator_true(atom, pol):
-        return pol is True and isinstance(atom, ast.Name) and atom.id == creator_p
+        return _set(atom, pol) == 1
 
     def creator_false(atom, pol):
-        return pol is False and isinstance(atom, ast.Name) and atom.id == creator_p
+        return _set(atom, pol) == -1
+    truthy_tests = [n for n in ccfg.nodes if n.kind == "test" and any(isinstance(a, ast.Name) and a.id == creator_p for a, pl in facts_of(n.ast.test, True))]
+    beh = ctx.fn("Pyro5.server.behavior._behavior") if "Pyro5.server.behavior._behavior" in p.functions else None
+    if beh is not None:
+        bcfg = ctx.cfg(beh)
+        truthy_tests += [n for n in bcfg.nodes if n.kind == "test" and any(isinstance(a, ast.Name) and a.id == "instance_creator" for a, pl in facts_of(n.ast.test, True))]
+    R.check(not truthy_tests, "C09-R5", "createInstance|creator-tested-by-identity", "whether a creator was given is decided by identity with None, not by its truthiness", ci.loc(),
+            "the creator is tested by truthiness: a callable creator object that is falsy (defines __len__ or __bool__) is ignored and the class is instantiated directly, so the "
+            "creator is not called for that instance")
     if creator_calls and class_calls:
         ok = all(ccfg.guarded(n, lambda e: edge_has_fact(e, creator_true)) for n in ctx.node_of(ci, creator_calls[0])) and \
             all(ccfg.guarded(n, lambda e: edge_has_fact(e, creator_false)) for n in ctx.node_of(ci, class_calls[0]))
